@@ -47,6 +47,7 @@ type Run struct {
 	SimTime    time.Duration
 	Leaked     bool // blocked goroutines remained at the end of the bubble
 	Sample     interface{}
+	WantGC     bool // the run allocated a lot: collect before the next one
 
 	trace     []string
 	traceCap  int
